@@ -141,9 +141,12 @@ static void dump_bitmaps (bitmap_t *bm, int n) {
 
 static void run_bitmap (char *args, char *ops) {
   bitmap_t bm[MAXBM];
-  int n = (int) strtoul (args, NULL, 10);
+  char *e;
+  int n = (int) strtoul (args, &e, 10);
+  /* initial capacity: 1 word, so that expansions really reallocate (bitmap_create2 (alloc, 0) would
+     give VARR_DEFAULT_SIZE = 64 words and no script would ever leave the first block) */
   if (n > MAXBM) n = MAXBM;
-  for (int k = 0; k < n; k++) bm[k] = bitmap_create2 (&h_alloc, 0);
+  for (int k = 0; k < n; k++) bm[k] = bitmap_create2 (&h_alloc, 1);
   bitmap_iterator_t iter;
   int iter_ok = n > 0;
   if (iter_ok) bitmap_iterator_init (&iter, bm[0]);
